@@ -27,6 +27,9 @@ pub trait Property {
     /// two further groups of fresh processes (8 and 5 workers) and their history
     /// digests compared; a difference is a violation of this property.
     const CROSS_PROCESS_RUNS: u64 = 0;
+    /// Whether a worker death or hang during a run is a violation of THIS property
+    /// (C01: "never crashes or hangs"; C14 for reader operations) or merely counted.
+    const JUDGES_CRASHES: bool = false;
     fn runs(tier: Tier) -> u64;
     fn generate(rng: &mut Rng, tier: Tier) -> Self::Plan;
     /// Execute a plan against the real code; `None` = property held.
@@ -525,6 +528,13 @@ pub fn run_check<P: Property>(o: &RunOpts) -> i32 {
     for (class, fs) in &by_class {
         if class == "HARNESS-PANIC" {
             harness_errors.push(format!("harness panic in run {}: {}", fs[0].run, fs[0].detail));
+            continue;
+        }
+        if (class == "process-death" || class == "hang") && !P::JUDGES_CRASHES {
+            // the process under a scenario of this property died or hung: a crash is C01's
+            // verdict (and C14's for reader operations); here it is counted, not judged
+            merged.add("crashes_not_judged_here", fs.len() as u64);
+            lines.push(format!("note: {} run(s) ended in {} (e.g. run {}): counted, not judged by {} (a crash or hang is C01's verdict)", fs.len(), class, fs[0].run, P::ID));
             continue;
         }
         let first = fs.iter().min_by_key(|f| if f.run < 0 { i64::MAX + f.run } else { f.run }).unwrap();
